@@ -33,6 +33,7 @@ class PairIter:
         self.acc = {}          # var id → expr added
         self.local_idx = {}    # var id → cell flag
         self.b = None
+        self.pre = A
 
     # ---- index algebra ------------------------------------------------------------------------
     def cell(self, e):
@@ -91,8 +92,19 @@ class PairIter:
         if k == 'ref' and e.get('id') in self.cases:
             return bool(self.cases[e['id']])
         if k == 'bin' and e['op'] in ('==', '!=', '<', '>', '<=', '>='):
-            a, b = self.val(e['l']), self.val(e['r'])
-            return {'==': a == b, '!=': a != b, '<': a < b, '>': a > b, '<=': a <= b, '>=': a >= b}[e['op']]
+            try:
+                a, b = self.val(e['l']), self.val(e['r'])
+                return {'==': a == b, '!=': a != b, '<': a < b, '>': a > b, '<=': a <= b, '>=': a >= b}[e['op']]
+            except NotPairwise:
+                # comparison of real scalars: decided only when the sign is determined by the declared assumptions
+                d = sp.simplify(self.amp_expr(e['l']) - self.amp_expr(e['r']))
+                if d.is_positive:
+                    return e['op'] in ('>', '>=', '!=')
+                if d.is_negative:
+                    return e['op'] in ('<', '<=', '!=')
+                if d.is_zero:
+                    return e['op'] in ('==', '<=', '>=')
+                raise NotPairwise('undecided comparison ' + SX.show(e)[:50])
         if k == 'cond':
             return self.cond(e['t']) if self.cond(e['c']) else self.cond(e['f'])
         raise NotPairwise('condition ' + SX.show(e)[:50])
@@ -127,7 +139,7 @@ class PairIter:
         c = self.cell(idx_node['i'])
         if c in self.cells:
             return self.cells[c]
-        return A[c]
+        return self.pre[c]
 
     def amp_expr(self, e):
         e = SX.strip(e)
@@ -137,11 +149,19 @@ class PairIter:
             a, b = (e['args'] if e['k'] == 'opcall' else (e['l'], e['r']))
             x, y = self.amp_expr(a), self.amp_expr(b)
             return {'*': x * y, '/': x / y, '+': x + y, '-': x - y}[e['op']]
+        if SX.is_node(e) and e['k'] == 'call' and len(SX.real_args(e)) == 1 and SX.short(e.get('callee', '')) in ('sqrt', 'norm', 'abs', 'conj'):
+            x = self.amp_expr(SX.real_args(e)[0])
+            return {'sqrt': sp.sqrt(x), 'norm': sp.Abs(x) ** 2, 'abs': sp.Abs(x), 'conj': sp.conjugate(x)}[SX.short(e['callee'])]
+        if SX.is_node(e) and e['k'] == 'cast':
+            return self.amp_expr(e['e'])
+        if SX.is_node(e) and e['k'] == 'ref' and e.get('id') in self.cases and e.get('id') not in self.scalars:
+            return sp.Integer(int(self.cases[e['id']]))
         return KS.to_sympy(e, self.scalars, self.read)
 
     # ---- statements ---------------------------------------------------------------------------
-    def run(self, body, b):
+    def run(self, body, b, pre=None):
         self.b = b
+        self.pre = pre or A
         self.cells = {}
         self.acc = {}
         self.local_idx = {}
@@ -187,7 +207,7 @@ class PairIter:
         if l['k'] == 'index' and SX.show(l['base']) == self.amp:
             c = self.cell(l['i'])
             rhs = self.amp_expr(w[1])
-            cur = self.cells.get(c, A[c])
+            cur = self.cells.get(c, self.pre[c])
             if op == '=':
                 self.cells[c] = sp.expand(rhs)
             elif op == '*=':
@@ -226,3 +246,11 @@ def full_state_loop(s, amp):
         if ww and SX.is_node(SX.strip(ww[0])) and SX.strip(ww[0]).get('id') == v['id']:
             return None
     return v, s['body']
+
+
+def pair_final(it, body):
+    """State of one pair after the loop visited both of its cells (bit clear first: it has the smaller index)."""
+    c0, _ = it.run(body, 0)
+    mid = (c0.get(0, A[0]), c0.get(1, A[1]))
+    c1, _ = it.run(body, 1, pre=mid)
+    return (c1.get(0, mid[0]), c1.get(1, mid[1]))
